@@ -99,10 +99,7 @@ func Nitro(wdt float64, subd int, zeit int, g *GlobalVarsMain, l *NitroSharedVar
 							ln.DODAT = g.Kalender(zeit)
 							ln.DOMENG1 = g.NSAS[g.AKF.Index] + g.NLAS[g.AKF.Index] + g.NDIR[g.AKF.Index]
 							ln.DUNGART = g.DGART[g.AKF.Index]
-							g.C1[0] = g.C1[0] + g.NDIR[g.AKF.Index] //! Summe miner. Duengung
-							if g.C1[0] < 0 {
-								g.C1[0] = 0
-							}
+							g.DSUMM = g.DSUMM + g.NDIR[g.AKF.Index] //! Summe miner. Duengung
 						}
 					}
 
